@@ -7730,8 +7730,7 @@ class Parser:
         if self._match_text_seq("FOR", "REPLICATION"):
             return self.expression(exp.NotForReplicationColumnConstraint())
 
-        # Unconsume the `NOT` token
-        self._retreat(self._index - 1)
+        # Both callers un-consume the `NOT` token themselves when no constraint was parsed
         return None
 
     def _parse_column_constraint(self) -> exp.Expr | None:
